@@ -15,6 +15,7 @@ pub fn run(name : &str, ctx : &Ctx, out : &mut Out) -> bool
     {
         "c12_sorter" => c12::sorter(ctx, out),
         "c13_identity" => c13::identity(ctx, out),
+        "c13_shared" => c13::shared_history(ctx, out),
         "c14_parser" => c14::parser(ctx, out),
         "c14_files_bundles" => c14::parse_all_and_bundle(ctx, out),
         "c15_base62" => c15::base62(ctx, out),
